@@ -366,6 +366,20 @@ fn locate_workers() -> Workers {
         if d.is_file() && rel.is_file() {
             let tmp = r.join("c19-tmp");
             let _ = std::fs::create_dir_all(&tmp);
+            // job files of runs that were killed: drop anything older than an hour
+            if let Ok(rd) = std::fs::read_dir(&tmp) {
+                for e in rd.flatten() {
+                    let old = e
+                        .metadata()
+                        .and_then(|m| m.modified())
+                        .ok()
+                        .and_then(|t| t.elapsed().ok())
+                        .is_some_and(|d| d > Duration::from_secs(3600));
+                    if old {
+                        let _ = std::fs::remove_file(e.path());
+                    }
+                }
+            }
             return Workers { dev: d, release: rel, tmp };
         }
     }
